@@ -390,6 +390,13 @@ def evaluate(prop, res):
                 continue
             name = d["name"]
             real = name in accepted
+            rel = res.get("rustc_accepted_release")
+            if rel is not None:
+                cov["verdicts_compared_across_macro_profiles"] += 1
+                if (name in rel) != real:
+                    src, _ = decl_source(table, d)
+                    add("violation", "the verdict depends on how the proc macro is built (dev: %s, release: %s)" % (
+                        "accept" if real else "reject", "accept" if name in rel else "reject"), {"declaration": name, "rule": d["rule"], "source": src})
             mv = model.get(name, {}).get("verdict", "missing")
             mdl = (mv == "accept")
             spec = model.get(name, {}).get("spec")
